@@ -100,6 +100,31 @@ def run(ctx: Ctx) -> Report:
     if len(vb.rejected) != 3:
         raise Machinery(f"C10 binding self-test failed: {vb.accepted}")
     rep.parts["binding_self_test"] = {"corrupted_traces_rejected": 3}
+    # composition (Training.tla): the callback protocol of learn() as seen by a flight recorder - iteration count, one on_step
+    # per environment step (warm-up included), on_iteration after the counter increment, start / end exactly once
+    from .. import drive_training as dtr
+    res2 = tlc.run("mc/MC_Training.tla", workdir=ctx.work, workers=8, timeout=900)
+    tlc.require_ok(res2, "MC_Training")
+    rep.add_tlc("MC_Training", res2)
+    pcases = [("PPO", 3, 0, 7, False), ("DQN", 2, 3, 5, True), ("DQN", 1, 0, 0, False), ("A2C", 2, 0, 6, True)] + \
+        ([("PPO", 4, 0, 17, True), ("DQN", 3, 1, 10, False)] if ctx.thorough else [])
+    ptr = [dtr.record_learn(k, S, ls, total, ctx.rng.randrange(2 ** 31), in_list=il) for (k, S, ls, total, il) in pcases]
+    pv = tracecheck.validate(ctx, "trace/Trace_Training.tla", ptr, "protocol")
+    rep.states += pv.distinct
+    rep.transitions += pv.generated
+    rep.traces += len(ptr)
+    rep.parts["C2S_callback_protocol"] = {"learn_runs": len(ptr), "events": sum(len(t["events"]) for t in ptr),
+                                          "accepted": len(pv.accepted), "rejected": len(pv.rejected)}
+    for i, (l, clauses) in sorted(pv.rejected.items()):
+        ev = ptr[i]["events"][l - 1] if 1 <= l <= len(ptr[i]["events"]) else None
+        rep.violations.append(Violation("C10:protocol:" + "+".join(clauses),
+                                        f"learn() of {ptr[i]['meta']} with cfg {ptr[i]['cfg']}: event {l} {ev} violates {clauses}; "
+                                        f"events={[ (e['e'], e['k']) for e in ptr[i]['events']][:40]}", "protocol",
+                                        {"kind": "protocol", "args": list(pcases[i])}))
+    mbad = copy.deepcopy(ptr[0])
+    del mbad["events"][4]
+    if 0 not in tracecheck.validate(ctx, "trace/Trace_Training.tla", [mbad], "protocol_selftest").rejected:
+        raise Machinery("C10 protocol self-test failed")
     rep.samples.append({"kind": "DQN iteration history", "cfg": traces[0]["cfg"], "init": traces[0]["init"],
                         "events": [{k: e[k] for k in ("iter", "pos", "onl_id", "tgt_id")} for e in traces[0]["events"][:5]]})
     rep.assumptions += ["'unchanged' / 'copied' claims are decided by bit-identity of all array leaves (interned digests)",
@@ -109,6 +134,15 @@ def run(ctx: Ctx) -> Report:
 
 def replay(ctx: Ctx, driver: str, case: dict) -> Report:
     rep = Report()
+    if case.get("kind") == "protocol":
+        from .. import drive_training as dtr
+        k, S, ls, total, il = case["args"]
+        tr = dtr.record_learn(k, S, ls, total, 1, in_list=il)
+        pv = tracecheck.validate(ctx, "trace/Trace_Training.tla", [tr], "replay")
+        for i, (l, clauses) in pv.rejected.items():
+            rep.violations.append(Violation("C10:protocol:" + "+".join(clauses), f"event {l}", "protocol", case))
+        rep.traces = 1
+        return rep
     tr = record(case)
     v = tracecheck.validate(ctx, SPEC, [tr], "replay")
     rep.traces = 1
